@@ -176,6 +176,7 @@ void reb_particles_transform_inertial_to_jacobi_acc(const struct reb_particle* c
 }
 
 void reb_particles_transform_jacobi_to_inertial_posvel(struct reb_particle* const particles, const struct reb_particle* const p_j, const struct reb_particle* const p_mass, const unsigned int N, const unsigned int N_active){
+    const unsigned int N_ref = N_active>0 ? N_active : 1; // Particle 0 is the reference body even if no particle is flagged as active (the forward transformation treats it that way, too). Also keeps the unsigned loops below in bounds.
     double eta  = p_j[0].m;
     double s_x  = p_j[0].x  * eta;
     double s_y  = p_j[0].y  * eta;
@@ -183,7 +184,7 @@ void reb_particles_transform_jacobi_to_inertial_posvel(struct reb_particle* cons
     double s_vx = p_j[0].vx * eta;
     double s_vy = p_j[0].vy * eta;
     double s_vz = p_j[0].vz * eta;
-    for (unsigned int i=N-1;i>=N_active;i--){
+    for (unsigned int i=N-1;i>=N_ref;i--){
         const struct reb_particle pji = p_j[i];
         const double ei = 1./eta;
         particles[i].x  = pji.x  + s_x  * ei;
@@ -193,7 +194,7 @@ void reb_particles_transform_jacobi_to_inertial_posvel(struct reb_particle* cons
         particles[i].vy = pji.vy + s_vy * ei;
         particles[i].vz = pji.vz + s_vz * ei;
     }
-    for (unsigned int i=N_active-1;i>0;i--){
+    for (unsigned int i=N_ref-1;i>0;i--){
         const struct reb_particle pji = p_j[i];
         const double ei = 1./eta;
         s_x  = (s_x  - p_mass[i].m * pji.x ) * ei;
@@ -226,18 +227,19 @@ void reb_particles_transform_jacobi_to_inertial_posvel(struct reb_particle* cons
 }
 
 void reb_particles_transform_jacobi_to_inertial_pos(struct reb_particle* const particles, const struct reb_particle* const p_j, const struct reb_particle* const p_mass, const unsigned int N, const unsigned int N_active){
+    const unsigned int N_ref = N_active>0 ? N_active : 1; // Particle 0 is the reference body even if no particle is flagged as active (the forward transformation treats it that way, too). Also keeps the unsigned loops below in bounds.
     double eta  = p_j[0].m;
     double s_x  = p_j[0].x  * eta;
     double s_y  = p_j[0].y  * eta;
     double s_z  = p_j[0].z  * eta;
-    for (unsigned int i=N-1;i>=N_active;i--){
+    for (unsigned int i=N-1;i>=N_ref;i--){
         const struct reb_particle pji = p_j[i];
         const double ei = 1./eta;
         particles[i].x  = pji.x  + s_x*ei ;
         particles[i].y  = pji.y  + s_y*ei ;
         particles[i].z  = pji.z  + s_z*ei ;
     }
-    for (unsigned int i=N_active-1;i>0;i--){
+    for (unsigned int i=N_ref-1;i>0;i--){
         const struct reb_particle pji = p_j[i];
         const double ei = 1./eta;
         s_x  = (s_x  - p_mass[i].m * pji.x ) * ei;
@@ -258,18 +260,19 @@ void reb_particles_transform_jacobi_to_inertial_pos(struct reb_particle* const p
 }
 
 void reb_particles_transform_jacobi_to_inertial_acc(struct reb_particle* const particles, const struct reb_particle* const p_j, const struct reb_particle* const p_mass, const unsigned int N, const unsigned int N_active){
+    const unsigned int N_ref = N_active>0 ? N_active : 1; // Particle 0 is the reference body even if no particle is flagged as active (the forward transformation treats it that way, too). Also keeps the unsigned loops below in bounds.
     double eta  = p_j[0].m;
     double s_ax  = p_j[0].ax  * eta;
     double s_ay  = p_j[0].ay  * eta;
     double s_az  = p_j[0].az  * eta;
-    for (unsigned int i=N-1;i>=N_active;i--){
+    for (unsigned int i=N-1;i>=N_ref;i--){
         const struct reb_particle pji = p_j[i];
         const double ei = 1./eta;
         particles[i].ax  = pji.ax  + s_ax * ei;
         particles[i].ay  = pji.ay  + s_ay * ei;
         particles[i].az  = pji.az  + s_az * ei;
     }
-    for (unsigned int i=N_active-1;i>0;i--){
+    for (unsigned int i=N_ref-1;i>0;i--){
         const struct reb_particle pji = p_j[i];
         const double ei = 1./eta;
         s_ax  = (s_ax  - p_mass[i].m * pji.ax ) * ei;
